@@ -164,10 +164,10 @@ def run(ctx):
     if n_att == 0:
         ctx.ok('C09.R4', 'kmip/**', 'no store to an isolation_level/autocommit attribute and no such option at %d engine/session factory sites' % n_cfg)
     # ---------------- R5 nobody but SQLite touches the files of the store
-    ctx.rule('C09.R5', 'no code in the package deletes, renames or truncates files (os.remove/unlink/rename/replace/rmdir/truncate, shutil.*, Path.unlink/rename): after an unclean shutdown the journal / write-ahead-log files next to the database are the only copy of acknowledged commits, and only SQLite may dispose of them')
+    ctx.rule('C09.R5', 'no code of the server or of the object store layer (kmip/services/server, kmip/pie) deletes, renames or truncates files (os.remove/unlink/rename/replace/rmdir/truncate, shutil.*, Path.unlink/rename): after an unclean shutdown the journal / write-ahead-log files next to the database are the only copy of acknowledged commits, and only SQLite may dispose of them')
     n_fs = 0
     FS = {'os.remove', 'os.unlink', 'os.rename', 'os.replace', 'os.rmdir', 'os.removedirs', 'os.truncate', 'shutil.rmtree', 'shutil.move', 'shutil.copyfile', 'shutil.copy'}
-    for rel in src.modules('kmip'):
+    for rel in [r for r in src.modules('kmip') if r.startswith('kmip/services/server/') or r.startswith('kmip/pie/')]:
         t = src.tree(rel)
         for c in ast.walk(t):
             if not isinstance(c, ast.Call):
